@@ -252,7 +252,9 @@ func (ex *Exec) tamperMeta(st *types.PersistentState) string {
 	case 0:
 		kind = "invalid-json"
 		if len(raw) > 2 {
-			raw = raw[:tp.Choose(len(raw))]
+			// the record's length depends on wall-clock stamps (CreateTime digits):
+			// draw a fraction, not an offset, so the tape is the same in every run
+			raw = raw[:tp.Choose(1000)*len(raw)/1000]
 		}
 		ex.meta.Raw = raw
 		return kind
